@@ -95,6 +95,7 @@ ExplainsEqc(e) ==
 Explains(e) ==
     CASE e.ev = "expand" -> ExplainsExpand(e)
       [] e.ev = "run"    -> ExplainsRun(e)
+      [] e.ev = "keyform" -> e.feed_matches /\ e.eq_matches    \* the key expression as written decides feed and equality
       [] e.ev = "laws"   -> ExplainsLaws(e)
       [] e.ev = "eqc"    -> ExplainsEqc(e)
       [] OTHER           -> FALSE
